@@ -14,7 +14,9 @@ CONSTANTS
   MsgsSet = {0}
   MaxBatch = 1
   TrackLast = FALSE
+  UseSet = FALSE
+  UseReopen = FALSE
   UseReaders = FALSE
 INVARIANTS TypeOK X05_Ordered X05_Dense X05_NextFollows X05_Epochs X05_ActiveListed
-PROPERTIES S_App S_Trn S_ClnSwap S_ClnStep S_Img S_Rd
+PROPERTIES S_App S_Trn S_ClnSwap S_ClnStep S_Img S_Rd S_Reopen
 CHECK_DEADLOCK FALSE
